@@ -144,6 +144,17 @@ func otherKind(k string) string {
 func (w *c12World) mutate(op *c12Op, c *rtCall, h *hon) *served {
 	t := w.s.T
 	ms, ws := w.candidates(op, c, h)
+	if op.trunc != "" && h.sub != nil && t.Chance(1, 2) {
+		// a submission the client may be unable to check by itself: lean on the SCTs whose signature is wrong
+		for i, m := range ms {
+			switch m.name {
+			case "sct.sig.foreign", "sct.sig.flip", "sct.sig.other-ts", "sct.sig.foreign-kind", "sct.sig.other-chain", "sct.sig.other-type", "sct.ds.empty":
+				ws[i] = 1
+			default:
+				ws[i] = 0
+			}
+		}
+	}
 	m := ms[t.Pick(ws)]
 	o := &served{Status: h.status, CutAt: -1, Header: http.Header{"Content-Type": {"application/json"}}, Kind: m.name, Expect: expectEither}
 	obj := map[string]any{}
